@@ -3,14 +3,15 @@ CC = "internal/app/connectconformance"
 CHECK = {
     "level": "exploration",
     "assumptions": [
-        "a single deviation / a single leniency rewrite per evaluated pair (combinations of deviations are not enumerated)",
+        "a single deviation / a single leniency rewrite per evaluated pair, each also combined with every allowed alternative error code being reported (other combinations of deviations are not enumerated)",
+        "two-call histories: the cold verdict of a comparison whose value lists both contain a token is taken in the same process with tokens never used before (a verdict does not depend on how the pieces of a value are spelled); comparisons with a token-free list ([] and [\"\"]) get their cold verdict from a freshly started process (the test binary re-executed)",
         "expected results are the distinct shapes of the expanded embedded corpus (reference config, all three run modes) plus a hand-enumerated grammar; other expectations are outside the bound",
         "the outcome of assert() is observed through testResults.outcomes (nil vs error and the error text), as the runner does",
     ],
     "manifest": {
         "engine": "ENUM",
         "technique": "bounded-exhaustive enumeration against a reference model",
-        "text": "For every distinct expected response of the expanded embedded corpus and of a small grammar (unary/stream, 0-3 payloads, errors with/without message and 0-2 details, repeated / mixed-case / comma-containing headers and trailers, request info with headers, query params and timeout) and of a sized family (payload data of a unary and of three full-duplex responses, error message, two error details, echoed request, each 255/256/257, 1023/1024/1025, 4095/4096/4097 and 65535/65536/65537 bytes long, so that byte-carrying fields straddle the usual buffer / truncation thresholds) the real testResults.assert is called with the identical result, with every documented leniency rewrite at every position (must pass) and with every single deviation at every position (must fail and the failure text must name the discrepancy; byte strings - payload data, detail values, echoed request values - are altered at the first, the middle and the last byte and have one byte dropped / appended at the end, error messages likewise by character). Rewrites and deviations are generated from the property text, the proto comments and docs/, not from results.go.",
+        "text": "For every distinct expected response of the expanded embedded corpus and of a small grammar (unary/stream, 0-3 payloads, errors with/without message and 0-2 details, repeated / mixed-case / comma-containing headers and trailers, request info with headers, query params and timeout) and of a sized family (payload data of a unary and of three full-duplex responses, error message, two error details, echoed request, each 255/256/257, 1023/1024/1025, 4095/4096/4097 and 65535/65536/65537 bytes long, so that byte-carrying fields straddle the usual buffer / truncation thresholds) the real testResults.assert is called with the identical result, with every documented leniency rewrite at every position (must pass) and with every single deviation at every position (must fail and the failure text must name the discrepancy; byte strings - payload data, detail values, echoed request values - are altered at the first, the middle and the last byte and have one byte dropped / appended at the end, error messages likewise by character). Code routes: every expectation with an error is evaluated again with other_allowed_error_codes lists of 1, 3 (thorough: 1, 2, 3) alternatives laid over it, and with its own list, the result reporting the primary code and each alternative in turn; every leniency rewrite and every deviation (message, details, metadata, payloads, echoed requests, timeout, HTTP status ...) is applied on top and must keep its verdict and its naming - an allowed alternative waives the code comparison only. Two-call histories: for every ordered pair of comparisons (place = response header / trailer / echoed request header / echoed query parameter) x (expected values, reported values) over the value-list shapes [], [\"\"], [p], [\"p, q\"], [p,q], [p,\" q\"], [\"p \",q], [\"p ,q\"], [\"p,q\"], [q,p] (thorough: 6 more with empty members and edge blanks), both assertions made in one process with shared tokens, the verdict of the second must be the verdict the same comparison gets in a fresh state (160,000 histories quick, 1,048,576 thorough); where the statement fixes the verdict of a comparison (identical lists, joined/split on \",\" or \", \", a piece removed / altered / swapped) the fresh-state verdict is checked against it too. Rewrites and deviations are generated from the property text, the proto comments and docs/, not from results.go.",
         "note": "Trusts the protobuf runtime (Clone/Equal) and the corpus loader of the package (exercised by C02/C07) to provide expectations. Only single deviations; the leniency list of the statement is taken as closed; cases whose outcome the statement leaves open (extra value on an expected header, whitespace around values, presence of request_info itself) are not generated.",
         "design_ref": "DESIGN.md §2.2, §4 C03",
     },
